@@ -14,6 +14,8 @@ import (
 	"sort"
 	"strings"
 
+	bo "github.com/benoitkugler/webrender/html/boxes"
+
 	"verif/internal/engine"
 	"verif/internal/render"
 )
@@ -259,6 +261,9 @@ func (c *check) Init(tier string, seed int64) engine.Space {
 	spanLite := []uint8{1, 2, 4, 6} // colspan, rowspan, rowspan=0, absent
 	// ---- heights: rows with a specified height x tall cells x cells spanning rows
 	rowSpans := []uint8{2, 3, 4}
+	// ---- split tables with row groups and cells spanning rows: the header and footer groups are
+	// repeated on every page, around body rows that a page break may separate
+	splitSpanFull := []fullDim{{dSection, []uint8{1, 2, 3, 4, 5}}, {dPageH, []uint8{1, 2}}, {dContent, []uint8{0, 8, 9}}, spacings, {dCellH, []uint8{0, 1}}}
 	heightFull := []fullDim{{dRowH, []uint8{0, 1, 2, 3}}, {dContent, []uint8{0, 8, 9}}, spacings, {dVAlign, []uint8{0, 2}}}
 	// a few hand-picked structures on which pairs of option deviations are crossed in the quick tier
 	pairStructs := []structure{
@@ -296,6 +301,7 @@ func (c *check) Init(tier string, seed int64) engine.Space {
 				full: []fullDim{{dCellH, []uint8{1, 2}}, {dVAlign, []uint8{0, 1, 2, 3}}, {dContent, []uint8{0, 8, 9}}, {dRowH, []uint8{0, 3}}}},
 			{name: "heights: 2x2, 2x3, 3x1, 3x2 with <=2 span symbols of any kind, one spanning rows x row height{auto,last 5px,all 15px} x content{rot0,tall multi-row} x spacing{0,2px 4px}", structs: withRowSpan(structSet([][2]int{{2, 2}, {2, 3}, {3, 1}, {3, 2}}, 2)),
 				full: []fullDim{{dRowH, []uint8{0, 1, 3}}, {dContent, []uint8{0, 8}}, spacings}},
+			{name: "split over pages of one or two lines, row groups: 3x1, 3x2, 4x1 with <=2 row-spanning symbols, 4x2 with 1, x section x content{rot0,tall} x spacing{0,2px 4px} x cell height{auto,first 30px}", structs: withRowSpan(append(structMenu([][2]int{{3, 1}, {3, 2}, {4, 1}}, 2, rowSpans), structMenu([][2]int{{4, 2}}, 1, rowSpans)...)), full: splitSpanFull},
 		}
 	} else {
 		upto6 := [][2]int{{1, 1}, {1, 2}, {2, 1}, {1, 3}, {3, 1}, {2, 2}, {2, 3}, {3, 2}}
@@ -308,6 +314,7 @@ func (c *check) Init(tier string, seed int64) engine.Space {
 			{name: "split over pages of two lines: 3-row tables, <=1 span symbol x page geometry{first margin, first wider} x width x layout x spacing{0,2px 4px}", structs: structSet([][2]int{{3, 1}, {3, 2}}, 1), full: split25Full},
 			{name: "split over pages of one or two lines, first page with a margin: 2x2, 3x1, 3x2 with <=1 span symbol of {colspan, rowspan, rowspan=0, absent} x width{auto,100%} x 1 option deviation", structs: structMenu([][2]int{{2, 2}, {3, 1}, {3, 2}}, 1, spanLite), full: splitDevFull, devs: levels(splitDevDims, 1, 1)},
 			{name: "heights: tables with a cell spanning rows (2x1, 2x2, 3x1 with <=2 row-spanning symbols, 3x2, 4x1, 4x2 with 1) x row height x tall content x spacing{0,2px 4px} x vertical-align{baseline,middle}", structs: withRowSpan(append(structMenu([][2]int{{2, 1}, {2, 2}, {3, 1}}, 2, rowSpans), structMenu([][2]int{{3, 2}, {4, 1}, {4, 2}}, 1, rowSpans)...)), full: heightFull},
+			{name: "split over pages of one or two lines, row groups: 3x1, 3x2 with one cell spanning rows (rowspan 2 or 0) x section x content{rot0,tall} x spacing{0,2px 4px} x cell height{auto,first 30px}", structs: withRowSpan(structMenu([][2]int{{3, 1}, {3, 2}}, 1, []uint8{2, 4})), full: splitSpanFull},
 		}
 	}
 	if only := os.Getenv("C13_ONLY"); only != "" { // development aid: explore some families only
@@ -442,19 +449,39 @@ func (c *check) runCase(d *doc, ctx *engine.Ctx) {
 				noTable = true
 				return
 			}
-			out = verify(d, g, t, 0, rp)
+			out = verify(d, g, t, 0, nil, rp)
 			return
 		}
 		// the table is split: every fragment is a laid-out table
 		var key strings.Builder
 		frags := 0
+		tables := make([]*bo.TableBox, len(pages)+1)
 		for p, pg := range pages {
-			t := findTable(pg)
+			tables[p] = findTable(pg)
+		}
+		repeated := map[int]bool{}
+		for _, r := range g.rows {
+			repeated[r.src] = r.repeated
+		}
+		for p := range pages {
+			t := tables[p]
 			if t == nil {
 				continue
 			}
 			frags++
-			o := verify(d, g, t, p, rp)
+			// rows of a body group that the next page continues: split by the page break
+			cont := map[int]bool{}
+			if next := tables[p+1]; next != nil {
+				for _, a := range fragmentRows(t) {
+					for _, b := range fragmentRows(next) {
+						if a == b && a >= 0 && !repeated[a] {
+							cont[a] = true
+							rp.count("rows-split-by-a-page-break", 1)
+						}
+					}
+				}
+			}
+			o := verify(d, g, t, p, cont, rp)
 			fmt.Fprintf(&key, "p%d %s | ", p, o.key)
 			out.nontrivial = out.nontrivial || o.nontrivial
 		}
